@@ -409,17 +409,22 @@ def run_exchange(ctx, impl_exe):
         a, b = ids[i % 2]
         for j in range(2):                      # two runs that differ only in the entropy served
             lines.append("exch %s %s %s %s %s %d" % (h64(ke), core.hexs(a), core.hexs(b), r.bytes(64).hex(), r.bytes(64).hex(), [16, 48][i % 2]))
-    out, err = core.run_lines(impl_exe, lines)
+    out, err = core.run_lines(impl_exe, lines, shards=1)
     kv = lambda s: dict(x.split("=", 1) for x in s.split(" ") if "=" in x)
     for i in range(0, len(lines), 2):
         ctx.cov["evaluations"] += 2
         ctx.count("op:exch", 2)
         a, b = out[i], out[i + 1]
-        if not (a.startswith("skeq=") and b.startswith("skeq=")):
+        if not (a.startswith("skref=") and b.startswith("skref=")):
             ctx.violation("exch:complete", "key exchange did not complete: `%s` -> %s" % (lines[i][:120], a[:80]),
                           {"kind": "failing-input", "op": lines[i], "impl": a, "stderr": err[-1500:]}, True)
             continue
         da, db = kv(a), kv(b)
+        if da["skref"] != "1" or db["skref"] != "1":
+            ctx.violation("exch:sk-value", "the derived key is not KDF(IDA||IDB||RA||RB||e(Ppube,P2)^rA||e(RB,deA)||e(RB,deA)^rA) recomputed from the transcript: `%s`" % lines[i][:120],
+                          {"kind": "failing-input", "op": lines[i], "op2": lines[i + 1], "impl": a, "impl2": b, "expected": "skref=1"}, True)
+        else:
+            ctx.cell("exch:sk-value:ok")
         if da["skeq"] != "1" or db["skeq"] != "1":
             ctx.violation("exch:agree", "the two parties derive different keys: `%s`" % lines[i][:120],
                           {"kind": "failing-input", "op": lines[i], "impl": a, "expected": "skeq=1"}, True)
@@ -625,6 +630,237 @@ def run_der(ctx, impl_exe, model_exe):
     ctx.notes.append("DER strictness: %d differential, %d API, %d key cases, %.1fs" % (len(diff), len(api), len(allk), time.time() - t0))
 
 
+# --------------------------------------------------------------------------- predicates, point import, key containers
+def der_tlv(tag, content):
+    return bytes([tag]) + der_len(len(content)) + content
+def der_int(v):
+    b = v.to_bytes(max(1, (v.bit_length() + 7) // 8), "big")
+    return der_tlv(2, (b"\x00" if b[0] & 0x80 else b"") + b)
+def der_bits(octets):
+    return der_tlv(3, b"\x00" + octets)
+def g1_oct(x, y): return b"\x04" + x.to_bytes(32, "big") + y.to_bytes(32, "big")
+def g2_oct(X, Y): return b"\x04" + b"".join(v.to_bytes(32, "big") for v in (X[1], X[0], Y[1], Y[0]))
+def key_der(kind, k=None, g1=None, g2=None):
+    body = {"smsk": lambda: der_int(k) + der_bits(g2), "smpk": lambda: der_bits(g2), "skey": lambda: der_bits(g1) + der_bits(g2),
+            "emsk": lambda: der_int(k) + der_bits(g1), "empk": lambda: der_bits(g1), "ekey": lambda: der_bits(g2) + der_bits(g1)}[kind]()
+    return der_tlv(0x30, body)
+
+
+def small_coord_point(r, curve, gen, pick):
+    """a point whose coordinate selected by pick() is < 2^256 - p (so that coordinate + p still fits 32 bytes)"""
+    for _ in range(60):
+        Pt = curve.mulp(rnd(r, N), gen)
+        if pick(Pt) < 2**256 - P: return Pt
+    return None
+
+
+def g1_alterations(r):
+    G1 = ref.G1
+    A = G1.mulp(rnd(r, N), ref.P1)
+    x, y = A
+    out = [("genuine", (x, y)), ("neg-y", (x, P - y)), ("neg-x", (P - x, y)), ("swap", (y, x)), ("y+1", (x, (y + 1) % P)),
+           ("x+1", ((x + 1) % P, y)), ("x=0", (0, y)), ("y=0", (x, 0)), ("zero", (0, 0))]
+    Ax = small_coord_point(r, G1, ref.P1, lambda Q: Q[0]); Ay = small_coord_point(r, G1, ref.P1, lambda Q: Q[1])
+    if Ax: out += [("genuine", Ax), ("x+p", (Ax[0] + P, Ax[1]))]
+    if Ay: out += [("genuine", Ay), ("y+p", (Ay[0], Ay[1] + P))]
+    out += [("x=p", (P, y)), ("y=p", (x, P)), ("x=max", (2**256 - 1, y))]
+    return A, out
+
+
+def g2_alterations(r):
+    G2 = ref.G2
+    B = G2.mulp(rnd(r, N), ref.P2)
+    (x0, x1), (y0, y1) = B
+    n = lambda v: (P - v) % P
+    out = [("genuine", B), ("neg-y", ((x0, x1), (n(y0), n(y1)))), ("conj-y", ((x0, x1), (y0, n(y1)))), ("neg-y0", ((x0, x1), (n(y0), y1))),
+           ("conj-x", ((x0, n(x1)), (y0, y1))), ("neg-x0", ((n(x0), x1), (y0, y1))), ("neg-x", ((n(x0), n(x1)), (y0, y1))),
+           ("conj-both", ((x0, n(x1)), (y0, n(y1)))),
+           ("swap-x", ((x1, x0), (y0, y1))), ("swap-y", ((x0, x1), (y1, y0))), ("swap-xy", ((y0, y1), (x0, x1))),
+           ("y1+1", ((x0, x1), (y0, (y1 + 1) % P))), ("y0+1", ((x0, x1), ((y0 + 1) % P, y1))),
+           ("x1+1", ((x0, (x1 + 1) % P), (y0, y1))), ("x0+1", (((x0 + 1) % P, x1), (y0, y1))),
+           ("y1=0", ((x0, x1), (y0, 0))), ("x1=0", ((x0, 0), (y0, y1))), ("zero", ((0, 0), (0, 0)))]
+    for name, pick, bump in (("x0+p", lambda Q: Q[0][0], lambda Q: ((Q[0][0] + P, Q[0][1]), Q[1])), ("x1+p", lambda Q: Q[0][1], lambda Q: ((Q[0][0], Q[0][1] + P), Q[1])),
+                             ("y0+p", lambda Q: Q[1][0], lambda Q: (Q[0], (Q[1][0] + P, Q[1][1]))), ("y1+p", lambda Q: Q[1][1], lambda Q: (Q[0], (Q[1][0], Q[1][1] + P)))):
+        Q = small_coord_point(r, G2, ref.P2, pick)
+        if Q: out += [("genuine", Q), (name, bump(Q))]
+    out += [("y1=p", ((x0, x1), (y0, P))), ("x0=max", ((2**256 - 1, x1), (y0, y1)))]
+    return B, out
+
+
+def g1_valid(pt): return pt[0] < P and pt[1] < P and ref.G1.on_curve(pt)
+def g2_valid(pt): return all(c < P for c in (pt[0][0], pt[0][1], pt[1][0], pt[1][1])) and ref.G2.on_curve(pt)
+
+
+def run_import(ctx, impl_exe, model_exe):
+    import time, re
+    r = ctx.rng
+    t0 = time.time()
+    hx = lambda b: b.hex() if b else "-"
+    viol = lambda key, text, op, a, exp: ctx.violation(key, text + ": op `%s` -> %s" % (op[:170], a[:90]),
+                                                      {"kind": "failing-input", "op": op, "impl": a, "expected": exp}, True)
+    # ---- A. predicates against the model: operands differing in exactly one coefficient, at every position
+    diff = []
+    for lvl, n in (("fp2", 2), ("fp4", 4), ("fp12", 12)):
+        base = [rnd(r, P - 2) + 1 for _ in range(n)]
+        enc = lambda cs: "".join(h64(c) for c in cs)
+        diff.append(("pred %s equ %s %s" % (lvl, enc(base), enc(base)), "pred:%s:equ:same" % lvl))
+        for i in range(n):
+            for nm, v in (("+1", (base[i] + 1) % P), ("neg", P - base[i]), ("zero", 0)):
+                b = list(base); b[i] = v
+                diff.append(("pred %s equ %s %s" % (lvl, enc(base), enc(b)), "pred:%s:equ:differ@%d" % (lvl, i)))
+                diff.append(("pred %s equ %s %s" % (lvl, enc(b), enc(base)), "pred:%s:equ:differ@%d" % (lvl, i)))
+            if lvl != "fp12":
+                z = [0] * n; z[i] = 1 + rnd(r, P - 1)
+                diff.append(("pred %s iszero %s" % (lvl, enc(z)), "pred:%s:iszero:one-coef@%d" % (lvl, i)))
+        if lvl != "fp12":
+            diff.append(("pred %s iszero %s" % (lvl, enc([0] * n)), "pred:%s:iszero:zero" % lvl))
+    for cs, nm in (([0, 1], "one"), ([1, 0], "u"), ([1, 1], "1+u"), ([0, 2], "two"), ([0, 0], "zero"), ([P - 1, 1], "1-u")):
+        diff.append(("pred fp2 isone %s%s" % (h64(cs[0]), h64(cs[1])), "pred:fp2:isone:" + nm))
+    # ---- B. point import with coordinates altered per coefficient, through every interface
+    A, g1alts = g1_alterations(r)
+    B, g2alts = g2_alterations(r)
+    hh = rnd(r, N).to_bytes(32, "big")
+    for nm, pt in g1alts:
+        if nm.endswith("+p") or "=p" in nm or "=max" in nm or pt[0] < 2**256 and pt[1] < 2**256:
+            o = g1_oct(*pt)
+            diff.append(("dersig " + hx(der_tlv(0x30, der_tlv(4, hh) + der_bits(o))), "import:g1:sig.S:" + nm))
+            diff.append(("derct " + hx(der_tlv(0x30, bytes([2, 1, 0]) + der_bits(o) + der_tlv(4, r.bytes(32)) + der_tlv(4, r.bytes(10)))), "import:g1:ct.C1:" + nm))
+    run_diff(ctx, diff, impl_exe, model_exe)
+    cases = []   # (line, cell, expect_accept, expected_der or None)
+    k0 = rnd(r, N) | (1 << 250)
+    for nm, pt in g1alts:
+        ok = g1_valid(pt); o = g1_oct(*pt)
+        cases.append(("g1 oct " + hx(o), "import:g1:octets:" + nm, ok, ref.g1_hex(pt) if ok else None))
+        for kind, mk in (("emsk", lambda: key_der("emsk", k=k0, g1=o)), ("empk", lambda: key_der("empk", g1=o)),
+                         ("skey", lambda: key_der("skey", g1=o, g2=g2_oct(*B))), ("ekey", lambda: key_der("ekey", g2=g2_oct(*B), g1=o))):
+            dd = mk()
+            cases.append(("keyder %s %s" % (kind, hx(dd)), "import:g1:%s.der:%s" % (kind, nm), ok, "%d %s" % (len(dd), dd.hex())))
+        dd = key_der("empk", g1=o)
+        cases.append(("keypem empk - %s" % hx(dd), "import:g1:empk.pem:" + nm, ok, dd.hex()))
+        if pt[0] < P and pt[1] < P:
+            g1h = h64(pt[0]) + h64(pt[1])
+            for kind, args, mk in (("emsk", "%s %s -" % (h64(k0), g1h), lambda: key_der("emsk", k=k0, g1=o)),
+                                   ("skey", "- %s %s" % (g1h, ref.g2_hex(B)), lambda: key_der("skey", g1=o, g2=g2_oct(*B))),
+                                   ("ekey", "- %s %s" % (g1h, ref.g2_hex(B)), lambda: key_der("ekey", g2=g2_oct(*B), g1=o))):
+                for iface in ("info", "pem"):
+                    if iface == "pem" and kind != "skey" and ctx.tier != "thorough": continue
+                    cases.append(("keyimp %s %s %s" % (kind, iface, args), "import:g1:%s.%s:%s" % (kind, iface, nm), ok, mk().hex()))
+    for nm, pt in g2alts:
+        ok = g2_valid(pt); o = g2_oct(*pt)
+        cases.append(("g2 oct " + hx(o), "import:g2:octets:" + nm, ok, ref.g2_hex(pt) if ok else None))
+        for kind, mk in (("smsk", lambda: key_der("smsk", k=k0, g2=o)), ("smpk", lambda: key_der("smpk", g2=o)),
+                         ("skey", lambda: key_der("skey", g1=g1_oct(*A), g2=o)), ("ekey", lambda: key_der("ekey", g2=o, g1=g1_oct(*A)))):
+            dd = mk()
+            cases.append(("keyder %s %s" % (kind, hx(dd)), "import:g2:%s.der:%s" % (kind, nm), ok, "%d %s" % (len(dd), dd.hex())))
+        dd = key_der("smpk", g2=o)
+        cases.append(("keypem smpk - %s" % hx(dd), "import:g2:smpk.pem:" + nm, ok, dd.hex()))
+        if all(c < P for c in (pt[0][0], pt[0][1], pt[1][0], pt[1][1])):
+            g2h = ref.g2_hex(pt)
+            for kind, args, mk in (("smsk", "%s - %s" % (h64(k0), g2h), lambda: key_der("smsk", k=k0, g2=o)),
+                                   ("skey", "- %s %s" % (ref.g1_hex(A), g2h), lambda: key_der("skey", g1=g1_oct(*A), g2=o)),
+                                   ("ekey", "- %s %s" % (ref.g1_hex(A), g2h), lambda: key_der("ekey", g2=o, g1=g1_oct(*A)))):
+                for iface in ("info", "pem"):
+                    if iface == "pem" and kind != "ekey" and ctx.tier != "thorough": continue
+                    cases.append(("keyimp %s %s %s" % (kind, iface, args), "import:g2:%s.%s:%s" % (kind, iface, nm), ok, mk().hex()))
+    out, err = core.run_lines(impl_exe, [c[0] for c in cases], shards=16)
+    for (line, cell, ok, exp), a in zip(cases, out):
+        ctx.cov["evaluations"] += 1; ctx.count("op:" + line.split(" ")[0])
+        acc = a.startswith("1 ") or (line.startswith(("g1 oct", "g2 oct")) and not a.startswith(("ERR", "FAULT", "-1", "0")))
+        if a.startswith("FAULT"):
+            viol(cell, "import faulted", line, a, "accepted" if ok else "refused")
+        elif acc and not ok:
+            viol(cell, "a point that is not on the curve (or has a coordinate >= p) is imported", line, a, "refused")
+        elif not acc and ok:
+            viol(cell, "a valid point is refused", line, a, "accepted")
+        elif acc and exp is not None and not a.endswith(exp):
+            viol(cell, "imported object re-encodes to different coordinates", line, a, exp)
+        else:
+            ctx.cell(cell + (":accepted" if acc else ":refused"))
+    # ---- C. cross-type confusion of the four key containers
+    kinds4 = ["smsk", "skey", "emsk", "ekey"]; kinds6 = ["smsk", "smpk", "skey", "emsk", "empk", "ekey"]
+    p1 = ["keyinfo %s %s %s pw %s" % (kd, h64(k0), hx(b"Dave"), r.bytes(64).hex()) for kd in kinds4]
+    p1 += ["keyenc %s %s %s" % (kd, h64(k0), hx(b"Dave")) for kd in kinds6]
+    p1 += ["sizes"]
+    o1, _ = core.run_lines(impl_exe, p1, shards=4)
+    ctx.cov["evaluations"] += len(p1)
+    blobs = dict(zip(kinds4, o1[:4])); plain = dict(zip(kinds6, o1[4:10])); sizes = dict(x.split("=") for x in o1[10].split(" ") if "=" in x)
+    cross = []
+    good = lambda e: len(e) > 20 and all(c in "0123456789abcdef" for c in e)
+    for loader in kinds4:
+        for kd in kinds4:
+            if not good(blobs[kd]): continue
+            same = kd == loader
+            cross.append(("keyinfodec %s pw %s" % (loader, blobs[kd]), "xtype:info-der:%s<-%s" % (loader, kd), same))
+            cross.append(("keypem %s pw %s" % (loader, blobs[kd]), "xtype:info-pem:%s<-%s" % (loader, kd), same))
+        for kd in kinds6:
+            if good(plain[kd]):
+                cross.append(("keyinfodec %s pw %s" % (loader, plain[kd]), "xtype:info-der:%s<-plain-%s" % (loader, kd), False))
+    for loader in kinds6:
+        for kd in kinds6:
+            if good(plain[kd]):
+                cross.append(("keyder %s %s" % (loader, plain[kd]), "xtype:der:%s<-%s" % (loader, kd), kd == loader))
+        cross.append(("keyder %s %s" % (loader, blobs["skey"]), "xtype:der:%s<-encrypted" % loader, False))
+    out, err = core.run_lines(impl_exe, [c[0] for c in cross], shards=16)
+    for (line, cell, same), a in zip(cross, out):
+        ctx.cov["evaluations"] += 1; ctx.count("op:" + line.split(" ")[0])
+        acc = a.startswith("1 ")
+        if a.startswith("FAULT"):
+            viol(cell, "loader faulted on a container of another kind", line, a, "refused (-1)")
+            ctx.violations[-1][2]["stderr"] = err[-1500:]
+        elif acc != same:
+            viol(cell, "container of another kind accepted" if acc else "own container refused", line, a, "1" if same else "-1")
+        else:
+            ctx.cell(cell + (":accepted" if acc else ":refused"))
+    # source-derived table: capacities of the callers' buffers handed to the shared copy helper
+    try:
+        src = open(os.path.join(core.REPO, "src", "sm9_key.c")).read()
+        caps = []
+        for fn in ("sm9_sign_master_key", "sm9_sign_key", "sm9_enc_master_key", "sm9_enc_key"):
+            m = re.search(r"int %s_info_decrypt_from_der\(.*?\)\s*\{(.*?)\n\}" % fn, src, re.S)
+            d = re.search(r"uint8_t\s+prikey\[([^\]]+)\]", m.group(1))
+            e = d.group(1).strip()
+            caps.append(int(e) if e.isdigit() else int(sizes[e]))
+        bound = int(sizes["SM9_MAX_PRIVATE_KEY_SIZE"])
+        coq = open(os.path.join(core.COQ, "Sm9", "Sm9Der.v")).read()
+        table = [int(x) for x in re.search(r"Definition info_caller_caps : list N := \[([^\]]*)\]", coq).group(1).split(";")]
+        cbound = int(re.search(r"Definition SM9_MAX_PRIVATE_KEY_SIZE : N := (\d+)", coq).group(1))
+        hb = re.search(r"\*prikey_len > (\w+)", src)
+        if caps != table or bound != cbound or not hb or hb.group(1) != "SM9_MAX_PRIVATE_KEY_SIZE":
+            ctx.violation("table:sm9-key-buffers", "the buffers handed to sm9_private_key_info_decrypt_from_der changed: source has capacities %s with copy bound %d (%s), the proved table is %s with bound %d%s"
+                          % (caps, bound, hb.group(1) if hb else "?", table, cbound, "; a capacity is below the bound: stack overflow" if min(caps) < bound else ""),
+                          {"kind": "relation", "relation": "info_caller_caps (coq/Sm9/Sm9Der.v) = declarations in src/sm9_key.c", "source": caps, "table": table}, False)
+        else:
+            ctx.cell("table:sm9-key-buffers:ok")
+    except Exception as e:
+        ctx.violation("table:sm9-key-buffers", "cannot derive the buffer table from src/sm9_key.c: %r" % (e,), {"kind": "relation", "error": repr(e)}, False)
+    # ---- D. group operations on other Jacobian representatives of the same points (reference: affine arithmetic)
+    jc = []
+    G1, G2 = ref.G1, ref.G2
+    f2h = lambda a: ref.f2_hex(a)
+    for i in range(6):
+        Pa, Pb = G1.mulp(rnd(r, N), ref.P1), G1.mulp(rnd(r, N), ref.P1); k = rnd(r, N); j1, j2 = 1 + rnd(r, P - 1), 1 + rnd(r, P - 1)
+        jc.append(("jac g1 mul %s %s %s" % (h64(k), ref.g1_hex(Pa), h64(j1)), "jac:g1:mul", ref.g1_hex(G1.mulp(k, Pa))))
+        jc.append(("jac g1 add %s %s %s %s" % (ref.g1_hex(Pa), ref.g1_hex(Pb), h64(j1), h64(j2)), "jac:g1:add", ref.g1_hex(G1.addp(Pa, Pb))))
+        jc.append(("jac g1 add %s %s %s %s" % (ref.g1_hex(Pa), ref.g1_hex(Pa), h64(j1), h64(j2)), "jac:g1:add:P+P", ref.g1_hex(G1.addp(Pa, Pa))))
+        jc.append(("jac g1 sub %s %s %s %s" % (ref.g1_hex(Pa), ref.g1_hex(Pa), h64(j1), h64(j2)), "jac:g1:sub:P-P", "INF"))
+        jc.append(("jac g1 dbl %s %s" % (ref.g1_hex(Pa), h64(j1)), "jac:g1:dbl", ref.g1_hex(G1.addp(Pa, Pa))))
+    for i in range(4):
+        Qa, Qb = G2.mulp(rnd(r, N), ref.P2), G2.mulp(rnd(r, N), ref.P2); k = rnd(r, N)
+        j1, j2 = (rnd(r, P), 1 + rnd(r, P - 1)), (1 + rnd(r, P - 1), rnd(r, P))
+        jc.append(("jac g2 mul %s %s %s" % (h64(k), ref.g2_hex(Qa), f2h(j1)), "jac:g2:mul", ref.g2_hex(G2.mulp(k, Qa))))
+        jc.append(("jac g2 add %s %s %s %s" % (ref.g2_hex(Qa), ref.g2_hex(Qb), f2h(j1), f2h(j2)), "jac:g2:add", ref.g2_hex(G2.addp(Qa, Qb))))
+        jc.append(("jac g2 add %s %s %s %s" % (ref.g2_hex(Qa), ref.g2_hex(Qa), f2h(j1), f2h(j2)), "jac:g2:add:P+P", ref.g2_hex(G2.addp(Qa, Qa))))
+        jc.append(("jac g2 sub %s %s %s %s" % (ref.g2_hex(Qa), ref.g2_hex(Qa), f2h(j1), f2h(j2)), "jac:g2:sub:P-P", "INF"))
+        jc.append(("jac g2 dbl %s %s" % (ref.g2_hex(Qa), f2h(j1)), "jac:g2:dbl", ref.g2_hex(G2.addp(Qa, Qa))))
+    Pa = G1.mulp(rnd(r, N), ref.P1); Qa = G2.mulp(rnd(r, N), ref.P2)
+    for a, b, e in ((Pa, Pa, "1"), (Pa, G1.negp(Pa), "0"), (Pa, G1.addp(Pa, Pa), "0")):
+        jc.append(("pred g1 equ %s %s" % (ref.g1_hex(a), ref.g1_hex(b)), "pred:g1:equ", e))
+    for a, b, e in ((Qa, Qa, "1"), (Qa, G2.negp(Qa), "0"), (Qa, G2.addp(Qa, Qa), "0")):
+        jc.append(("pred g2 equ %s %s" % (ref.g2_hex(a), ref.g2_hex(b)), "pred:g2:equ", e))
+    run_expected(ctx, jc, impl_exe, "group operation on another representative differs from the integer reference")
+    ctx.notes.append("predicates/import/containers: %d differential, %d import, %d cross-type, %d representative cases, %.1fs" % (len(diff), len(cases), len(cross), len(jc), time.time() - t0))
+
+
 def run(ctx):
     ctx.check_proofs()
     model, log = core.build_model("C17")
@@ -646,6 +882,7 @@ def run(ctx):
     run_scheme(ctx, gen_scheme(ctx), exe)
     run_exchange(ctx, exe)
     run_der(ctx, exe, model)
+    run_import(ctx, exe, model)
     return finish(ctx)
 
 
